@@ -14,6 +14,7 @@ structure Sess where
   spec   : Option StrMap := none
   mem    : Mem := {}
   cmpK   : String := "s"
+  cmpF   : Cmp := cmpSigned             -- the comparator of the session (chosen once, at `new`)
   univ   : List Key := []               -- every key the history mentioned, sorted
   it     : Option Iter := none          -- the session iterator while it is valid
   cursor : Option StrMap.Cursor := none
@@ -24,10 +25,15 @@ structure Sess where
   pit : Option PTST.PIter := none
   sparse : Bool := false                -- obs=sparse session: content only on `observe`
   full   : Bool := false                -- the current op is `observe`
+  quiet  : Bool := false                -- phys=quiet session: checksum of the trie dump between `observe`s
 
 def hexDigit (n : Nat) : Char := if n < 10 then Char.ofNat (48 + n) else Char.ofNat (87 + n)
 def hex2 (n : Nat) : String := String.ofList [hexDigit (n / 16 % 16), hexDigit (n % 16)]
-def fmtKey (k : Key) : String := if k.isEmpty then "-" else String.join (k.map hex2)
+/-- append the hex form of a key (no intermediate strings: the scale stream dumps tries whose keys have hundreds of bytes) -/
+def pushKey (acc : String) (k : Key) : String :=
+  if k.isEmpty then acc.push '-' else
+  k.foldl (fun a b => (a.push (hexDigit (b / 16 % 16))).push (hexDigit (b % 16))) acc
+def fmtKey (k : Key) : String := pushKey "" k
 def hexVal (c : Char) : Nat := if c.toNat ≤ 57 then c.toNat - 48 else c.toNat - 87
 def parseHex : List Char → Key
   | a :: b :: rest => (hexVal a * 16 + hexVal b) :: parseHex rest
@@ -47,10 +53,12 @@ def sortKeys (xs : List Key) : List Key := xs.mergeSort fun a b => !keyLt b a
 def insertKey (k : Key) (ks : List Key) : List Key := if ks.contains k then ks else sortKeys (k :: ks)
 
 def fmtPairs (xs : List (Key × Nat)) : String :=
-  "[" ++ ",".intercalate (xs.map fun x => s!"{fmtKey x.1}:{x.2}") ++ "]"
-def fmtKeys (xs : List Key) : String := "[" ++ ",".intercalate (xs.map fmtKey) ++ "]"
+  (xs.foldl (fun (a : String × Bool) x =>
+    (((pushKey (if a.2 then a.1.push ',' else a.1) x.1).push ':') ++ toString x.2, true)) ("[", false)).1.push ']'
+def fmtKeys (xs : List Key) : String :=
+  (xs.foldl (fun (a : String × Bool) x => (pushKey (if a.2 then a.1.push ',' else a.1) x, true)) ("[", false)).1.push ']'
 
-def cmpOf (k : String) : Cmp := if k == "u" then cmpUnsigned else if k == "r" then cmpReverse else cmpSigned
+
 
 def fmtNode : Node → String
   | .nil => "."
@@ -69,7 +77,7 @@ def obsM (s : Sess) : String :=
   match s.model with
   | none => "abs=[] enum=[] size=0"
   | some t =>
-    let cmp := cmpOf s.cmpK
+    let cmp := s.cmpF
     let abs := s.univ.filterMap fun k => (t.root.lookup cmp k).map fun e => (k, e.2)
     s!"abs={fmtPairs abs} enum={fmtPairs (sortPairs (iterAll t {}).1)} size={t.size}"
 def obsS (s : Sess) : String :=
@@ -79,14 +87,28 @@ def obsS (s : Sess) : String :=
   | some sp =>
     let abs := s.univ.filterMap fun k => (sp.get k).map fun v => (k, v)
     s!"abs={fmtPairs abs} enum={fmtPairs (sortPairs sp.items)} size={sp.size}"
-/-- the trie as the pointer-level heap holds it: `(char#id^parent-id;entry;left mid right)` -/
-def fmtPT (h : PTST.Heap) : Nat → Nat → String
-  | 0, _ => "!"
-  | f + 1, n =>
-    if n = 0 then "." else
+/-- the trie as the pointer-level heap holds it: `(char#id^parent-id;entry;left mid right)`, appended to `acc`
+(linear in the size of the dump, also on deep tries); returns the number of nodes too -/
+def fmtPTAcc (h : PTST.Heap) : Nat → Nat → String × Nat → String × Nat
+  | 0, _, (acc, k) => (acc.push '!', k)
+  | f + 1, n, (acc, k) =>
+    if n = 0 then (acc.push '.', k) else
     let nd := h.get n
-    let ds := match nd.data with | some e => s!"{fmtKey e.1}={e.2}" | none => "-"
-    s!"({hex2 nd.c}#{n}^{nd.parent};{ds};{fmtPT h f nd.left}{fmtPT h f nd.mid}{fmtPT h f nd.right})"
+    let acc := (((acc.push '(' ++ hex2 nd.c).push '#' ++ toString n).push '^' ++ toString nd.parent).push ';'
+    let acc := match nd.data with
+      | some e => (pushKey acc e.1).push '=' ++ toString e.2
+      | none => acc.push '-'
+    let a := fmtPTAcc h f nd.left (acc.push ';', k + 1)
+    let a := fmtPTAcc h f nd.mid a
+    let a := fmtPTAcc h f nd.right a
+    (a.1.push ')', a.2)
+
+def fmtPT (h : PTST.Heap) (fuel n : Nat) : String := (fmtPTAcc h fuel n ("", 0)).1
+
+/-- FNV-1a 64 over the bytes of the dump, as 16 hex digits (the shim computes the same over its text) -/
+def fnv64 (s : String) : String :=
+  let h := s.toUTF8.foldl (fun (h : UInt64) b => (h ^^^ b.toUInt64) * 0x100000001b3) 0xcbf29ce484222325
+  String.ofList ((List.range 16).map fun i => hexDigit ((h >>> (UInt64.ofNat (60 - 4 * i))).toNat % 16))
 
 def phys (s : Sess) : String :=
   match s.model with
@@ -99,14 +121,34 @@ def phys (s : Sess) : String :=
       | some it => s!" it=cur:{fmtPath it.cur}#{pc},next:{fmtPath it.next}#{pn},adv:{if it.adv then 1 else 0}" ++
           (if it.adv then s!",ns:{it.nextStat.code}" else "")
     let ord := if s.sparse && !s.full then "" else s!" ord={fmtPairs (iterAll t {}).1}"
-    s!"size={s.pt.size} tree={fmtPT s.pt.heap (s.pt.fresh + 1) s.pt.root}{ord}{s.cb}{itS}"
+    let d := fmtPTAcc s.pt.heap (s.pt.fresh + 1) s.pt.root ("", 0)
+    let tree := if s.quiet && !s.full then s!"~{fnv64 d.1}/{d.2}" else d.1
+    s!"size={s.pt.size} tree={tree}{ord}{s.cb}{itS}"
+/-- `PTST.toNode pt == root` without building the trie: the links of the heap span exactly `root` -/
+def spans (h : PTST.Heap) : Nat → Nat → Node → Bool
+  | 0, _, _ => false
+  | _ + 1, n, .nil => n == 0
+  | f + 1, n, .node c d l m r =>
+    n != 0 &&
+    (let nd := h.get n
+     nd.c == c && nd.data == d && spans h f nd.left l && spans h f nd.mid m && spans h f nd.right r)
+
+/-- `Node.KeysOk` without building the enumeration: every entry stores the key its path spells (`rp` = the
+characters of the `mid` links above, reversed) -/
+def keysOkFast : List Nat → Node → Bool
+  | _, .nil => true
+  | rp, .node c d l m r =>
+    (match d with | some e => e.1.reverse == c :: rp | none => true) &&
+    keysOkFast rp l && keysOkFast (c :: rp) m && keysOkFast rp r
+
 /-- the pointer-level heap spans the inductive trie, holds no other block, and the two iterators point to
 the same nodes -/
 def ptAgrees (s : Sess) : Bool :=
   match s.model with
   | none => true
   | some t =>
-    PTST.toNode s.pt == t.root && s.pt.size == t.size && s.pt.heap.count == t.root.nodes &&
+    (if s.quiet && !s.full then spans s.pt.heap (s.pt.fresh + 1) s.pt.root t.root else PTST.toNode s.pt == t.root) &&
+    s.pt.size == t.size && s.pt.heap.count == t.root.nodes &&
     (match s.it, s.pit with
      | some it, some pi =>
        let pth (n : Nat) : Option Path := if n = 0 then none else PTST.pathOf s.pt.heap (s.pt.fresh + 1) n []
@@ -114,10 +156,23 @@ def ptAgrees (s : Sess) : Bool :=
      | none, _ => true
      | some _, none => false)
 
+/-- `Node.Ordered` by nearest bounds (one comparison per node and bound): the same verdict for the three transitive
+comparators of the sessions; used between the `observe`s of a `phys=quiet` session, where the tries have hundreds of
+nodes per level and the definition itself (all `heads` of both sides at every node) would be quadratic per operation -/
+def ordFast (cmp : Cmp) : Option Nat → Option Nat → Node → Bool
+  | _, _, .nil => true
+  | lo, hi, .node c _ l m r =>
+    (lo.all fun b => cmp c b == .gt) && (hi.all fun b => cmp c b == .lt) &&
+    ordFast cmp lo (some c) l && ordFast cmp none none m && ordFast cmp (some c) hi r
+
 def inv (s : Sess) : Bool :=
   match s.model with
   | none => true
-  | some t => decide (t.Inv (cmpOf s.cmpK)) && (s.usedEmpty || decide t.root.KeysOk) && ptAgrees s
+  | some t =>
+    (if s.quiet && !s.full then
+       t.size == t.root.marked && decide t.root.Pruned && ordFast s.cmpF none none t.root
+     else decide (t.Inv s.cmpF)) &&
+    (s.usedEmpty || (if s.quiet && !s.full then keysOkFast [] t.root else decide t.root.KeysOk)) && ptAgrees s
 
 def lines (hdS hdM : String) (s : Sess) : String × String :=
   (s!"S {hdS} {obsS s}",
@@ -142,12 +197,16 @@ def step (s0 : Sess) (c : Cmd) : Sess × String × String :=
     let (sst, sp) := if c.fired > 0 then (Stat.errAlloc, none) else (Stat.ok, some StrMap.empty)
     let s' : Sess := { s with model := t, spec := sp, mem := m, it := none, cursor := none, pt := {}, pit := none,
                               sparse := c.str "obs" == some "sparse",
-                              cmpK := if c.op == "new" then (c.str "cmp").getD "s" else "s" }
+                              quiet := c.str "phys" == some "quiet",
+                              cmpK := if c.op == "new" then (c.str "cmp").getD "s" else "s",
+                              cmpF := if c.op != "new" then cmpSigned
+                                      else if c.str "cmp" == some "u" then cmpUnsigned
+                                      else if c.str "cmp" == some "r" then cmpReverse else cmpSigned }
     fin s' (fmtStat sst) (fmtStat st)
   | _ =>
   match s.model, s.spec with
   | some t, some sp =>
-    let cmp := cmpOf s.cmpK
+    let cmp := s.cmpF
     match c.op, keyS with
     | "add", some _ =>
       let (st, t', m) := t.add cmp key v m
